@@ -41,6 +41,10 @@ func TestC13PartialRecovery(t *testing.T) {
 	})
 }
 
+// partialStreamRequests: the node of the next runC13Partial has stream requests enabled (nothing on the links asks for
+// any; the queue of a channel is the application's all the same).
+var partialStreamRequests bool
+
 func runC13Partial(nch, over, k, m, how int) error {
 	pipes := make([]*sim.Pipe, nch)
 	var endpoints []gomavlib.EndpointConf
@@ -48,7 +52,8 @@ func runC13Partial(nch, over, k, m, how int) error {
 		pipes[i] = sim.NewPipe()
 		endpoints = append(endpoints, gomavlib.EndpointCustom{ReadWriteCloser: pipes[i]})
 	}
-	n := &gomavlib.Node{Endpoints: endpoints, Dialect: ardupilotmega.Dialect, OutVersion: gomavlib.V2, OutSystemID: nodeSys, HeartbeatDisable: true}
+	n := &gomavlib.Node{Endpoints: endpoints, Dialect: ardupilotmega.Dialect, OutVersion: gomavlib.V2, OutSystemID: nodeSys, HeartbeatDisable: true,
+		StreamRequestEnable: partialStreamRequests}
 	if err := initNode(&n); err != nil {
 		return fmt.Errorf("BROKEN: %v", err)
 	}
@@ -65,8 +70,16 @@ func runC13Partial(nch, over, k, m, how int) error {
 	victim := pipes[0]
 	victim.BlockWrites()
 	counter := 0
+	// (half of the runs: the application keeps one message value and updates it from write to write, as periodic
+	// telemetry code does - what has been handed over is what was in it at that moment)
+	reused := &common.MessageDebug{Ind: 4}
 	for i := 0; i < over; i++ {
-		if err := n.WriteMessageAll(&common.MessageDebug{TimeBootMs: uint32(counter), Ind: 4}); err != nil {
+		msg := &common.MessageDebug{TimeBootMs: uint32(counter), Ind: 4}
+		if over%2 == 0 {
+			reused.TimeBootMs = uint32(counter)
+			msg = reused
+		}
+		if err := n.WriteMessageAll(msg); err != nil {
 			return fmt.Errorf("write refused: %v", err)
 		}
 		counter++
@@ -133,6 +146,16 @@ func runC13Partial(nch, over, k, m, how int) error {
 	have := map[int]bool{}
 	for _, c := range cs {
 		have[c] = true
+	}
+	// the first 64 items submitted while the link was blocked had room (the queue holds 64)
+	var lostEarly []int
+	for c := 0; c < 64; c++ {
+		if !have[c] {
+			lostEarly = append(lostEarly, c)
+		}
+	}
+	if len(lostEarly) > 0 {
+		return fmt.Errorf("the link was blocked from the start; of the first 64 items written to all channels meanwhile (the channel's queue holds 64) %d never reached it: %v", len(lostEarly), lostEarly)
 	}
 	var lost []int
 	for c := first; c < first+m; c++ {
